@@ -6,8 +6,9 @@ import Operon.Gen.MitoCaps
     cfg <allowed: none | - | c1,c2,..> [container]
     setal <allowed> [container]                      -- `engine.allowed_capabilities = …` on the live engine
     reg <name> <body> <req: none | - | list> <caps: none | - | list> <raises 0/1> [style]
+                                                     --   style p q r y: declarations are iterators built per access
     unreg <name>
-    redecl <name> <req> <caps> [a|i] [also:<e>:<name>,..]   -- attributes re-assigned (a) / the declared set mutated in
+    redecl <name> <req> <caps> [a|i|at|it] [also:<e>:<name>,..] -- attributes re-assigned (a) / the declared set mutated in
                                                      --   place (i) on the live tool object; `also` = recorded by the
                                                      --   harness: the other (engine, name) pairs holding that object
     setal <allowed> <container> i                    -- the ceiling set object mutated in place
@@ -59,9 +60,21 @@ def slotOps (d : DSt) (slot : Nat) : List RegOp :=
 def slotSpec (d : DSt) (spec : String) : List RegOp :=
   ((spec.drop 1).toString.splitOn ",").flatMap fun x => slotOps d (natD x)
 
+/-- Registration styles whose declaration objects are iterators (generator expression, `map`, `iter(…)`, an object
+    with `__iter__` only) built afresh by a property at every access: such an object is truthy even when it yields
+    nothing, so `getattr(tool, "required_capabilities", None) or …` stops at it and `capabilities` is never read.
+    As a tool VALUE of the model: `required_capabilities` present and empty, no `capabilities` attribute.
+    (Which style a tool object has is a fact of the harness' own registration, like the container type.) -/
+def truthyWhenEmpty (style : String) : Bool := style = "p" || style = "q" || style = "r" || style = "y"
+
+def declOf (truthy : Bool) (req caps : String) : Option (List Cap) × Option (List Cap) :=
+  if truthy then iteratorDecl (capsOf req) (capsOf caps) else (capsOf req, capsOf caps)
+
 def parseRegOp : List String → Option RegOp
   | ["reg", n, body, req, caps, r] => some (.register n ⟨natD body, capsOf req, capsOf caps, boolOf r⟩)
-  | ["reg", n, body, req, caps, r, _style] => some (.register n ⟨natD body, capsOf req, capsOf caps, boolOf r⟩)
+  | ["reg", n, body, req, caps, r, style] =>
+    let d := declOf (truthyWhenEmpty style) req caps
+    some (.register n ⟨natD body, d.1, d.2, boolOf r⟩)
   | ["unreg", n] => some (.unregister n)
   | _ => none
 
@@ -152,11 +165,12 @@ def step (d : DSt) (toks : List String) : DSt × String :=
   | ["unreg", n] => ({ d with st := { d.st with reg := d.st.reg.erase n } }, "ok")
   | ["redecl", n, req, caps] =>
     ({ d with st := { d.st with reg := d.st.reg.redeclare n (capsOf req) (capsOf caps) } }, "ok")
-  | ["redecl", n, req, caps, _mode] =>
-    ({ d with st := { d.st with reg := d.st.reg.redeclare n (capsOf req) (capsOf caps) } }, "ok")
-  | ["redecl", n, req, caps, _mode, also] =>
-    (alsoRedeclare { d with st := { d.st with reg := d.st.reg.redeclare n (capsOf req) (capsOf caps) } } also
-      (capsOf req) (capsOf caps), "ok")
+  | ["redecl", n, req, caps, mode] =>                -- mode a / i, suffix t: the object's declarations are iterators
+    let dc := declOf (mode = "at" || mode = "it") req caps
+    ({ d with st := { d.st with reg := d.st.reg.redeclare n dc.1 dc.2 } }, "ok")
+  | ["redecl", n, req, caps, mode, also] =>
+    let dc := declOf (mode = "at" || mode = "it") req caps
+    (alsoRedeclare { d with st := { d.st with reg := d.st.reg.redeclare n dc.1 dc.2 } } also dc.1 dc.2, "ok")
   | ["body", b, spec] =>                           -- from now on the callable <b> fires these slots whenever it runs
     ({ d with st := { d.st with effects := d.st.effects ++ [(natD b, slotSpec d spec)] } }, "ok")
   | ["schemas"] => (d, "ok")                       -- export_tool_schemas / list_tools: must not change anything
